@@ -251,7 +251,7 @@ class C06(ScanProperty):
 
     def gen_case(self, rng, i):
         nm = rng.randint(1, 4)
-        modes, alpha = dense_config(rng, nm, la_prob=0.1)
+        modes, alpha = dense_config(rng, nm, la_prob=0.1, npat=(1, 6) if i % 3 == 0 else (1, 4))
         inp = gen.gen_small_input(rng, alpha, maxlen=14)
         ops = gen.gen_history(rng, modes, inp, n=rng.randint(3, 14),
                               kinds=['next'] * 6 + ['peek'] * 2 + ['set_mode', 'current_mode', 'current_mode'])
@@ -296,6 +296,13 @@ class C07(ScanProperty):
 
     def gen_case(self, rng, i):
         k = i % 4
+        gen.NULLABLE_LA = True          # C07 includes lookahead patterns that can match the empty string
+        try:
+            return self.gen_case_(rng, i, k)
+        finally:
+            gen.NULLABLE_LA = False
+
+    def gen_case_(self, rng, i, k):
         if k == 0:
             modes = gen.gen_config(rng, nmodes=rng.randint(1, 3), la_prob=0.3, trans=True)
             inp = gen.gen_input(rng, modes)
